@@ -1,11 +1,13 @@
 #!/bin/bash
-# tools/try_seed.sh <seeded-id> <tier> <check>...  : apply a stored seeded change to /repo, run checks, undo
+# tools/try_seed.sh <seeded-id> <tier> <check>...  : apply a stored seeded change to a scratch copy of /repo's
+# working tree (never /repo itself, so that concurrent runs are not disturbed), run checks against it, remove it
 ID=$1; TIER=$2; shift 2
-cd /repo && git apply /verif/seeded/$ID/patch.diff || { echo "cannot apply"; exit 2; }
+D=$(mktemp -d /tmp/tryseed.XXXXXX)
+cp -r /repo/src $D/src
+( cd $D && patch -p1 -s < /verif/seeded/$ID/patch.diff ) || { echo "cannot apply"; rm -rf $D; exit 2; }
 cd /verif
 for c in "$@"; do
-  out=$(VERIF_EVIDENCE_DIR=/tmp/seed-ev ./check $c $TIER 2>&1); rc=$?
+  out=$(VERIF_REPO_SRC=$D/src VERIF_EVIDENCE_DIR=$D/ev ./check $c $TIER 2>&1); rc=$?
   echo "$c rc=$rc $(echo "$out" | grep -E '^  key=' | head -3 | cut -c1-160 | tr '\n' ' ')"
 done
-git -C /repo checkout -- . ; rm -rf /tmp/seed-ev
-git -C /repo status --short | head -3
+rm -rf $D
